@@ -542,7 +542,7 @@ def _label_str(v):
     return v if isinstance(v, str) else repr(v)
 
 
-def explore(ctx, arch, codes, m0, max_paths=4000, facts0=None):
+def explore(ctx, arch, codes, m0, max_paths=4000, facts0=None, start=0):
     """run a list with local labels and conditional jumps on every feasible path.
     Yields (machine, facts, exit) with exit in {'end', ('label', L)}; returns at most max_paths paths and sets
     explore.truncated when the cap cut the enumeration."""
@@ -552,7 +552,7 @@ def explore(ctx, arch, codes, m0, max_paths=4000, facts0=None):
             labels[_label_str(c.fields.get("0"))] = i
     out = []
     truncated = False
-    stack = [(0, m0, dict(facts0 or {}))]
+    stack = [(start, m0, dict(facts0 or {}))]
     steps = 0
     while stack:
         if len(out) >= max_paths:
@@ -574,6 +574,10 @@ def explore(ctx, arch, codes, m0, max_paths=4000, facts0=None):
                 continue
             if c.variant in ("COMMENT", "LAB"):
                 continue
+            if c.variant == "MARK":
+                # a marker planted by the caller (e.g. where code generation recurses into the next statement): the path ends here
+                out.append((m, facts, ("mark", pc - 1)))
+                break
             n_ev = len(m.events)
             if arch == "rv64":
                 step_rv(m, c.variant, rv_operands(c))
